@@ -379,8 +379,100 @@ def item_life(repo):
             f'def pendingShutdownTolerant : Bool := {b(tolerant)}\n')
 
 
+def flat(t):
+    return re.sub(r'\s+', ' ', t).strip()
+
+def strip_hooks(t):
+    t = re.sub(r'#\s*\[cfg\(bmwill_anemo_verif\)\]\s*crate::verif::point(_ctx)?\([^;]*\);', '', t)
+    t = re.sub(r'(debug|trace|info|warn)!\([^;]*\);', '', t)
+    return t
+
+STMT = [
+    (r'let old_connection = entry\.insert\(new_connection\.clone\(\)\)', 'insertNew'),
+    (r'entry\.insert\(new_connection\.clone\(\)\)', 'insertNew'),
+    (r'old_connection\.close\(\)', 'closeOld'),
+    (r'new_connection\.close\(\)', 'closeNew'),
+    (r'self\.send_event\(PeerEvent::LostPeer\(peer_id, DisconnectReason::Requested\)\)', 'emitLostRequested'),
+    (r'self\.send_event\(PeerEvent::NewPeer\(peer_id\)\)', 'emitNew'),
+    (r'return None', 'retNone'),
+    (r'Some\(new_connection\)', 'retSome'),
+]
+
+def stmts(body, what):
+    body = flat(strip_hooks(body))
+    out = []
+    # the name the replaced connection is bound to is free
+    m = re.search(r'let (\w+) = entry\.insert\(new_connection\.clone\(\)\)', body)
+    if m and m.group(1) != 'new_connection':
+        body = re.sub(r'\b' + m.group(1) + r'\b', 'old_connection', body)
+    for st in [x.strip() for x in body.split(';') if x.strip()]:
+        for pat, name in STMT:
+            if re.fullmatch(pat, st):
+                out.append(name)
+                break
+        else:
+            raise ValueError(f'registry: {what}: unrecognised statement `{st[:80]}`')
+    return out
+
+def item_registry(repo):
+    cm = strip_comments(read(repo, 'crates/anemo/src/network/connection_manager.rs'))
+    inner = block_after(cm, r'impl\s+ActivePeersInner\s*\{')
+    add = block_after(inner, r'fn\s+add\s*\(\s*&mut self, own_peer_id: &PeerId, new_connection: Connection\s*\)\s*->\s*Option<Connection>')
+    a = flat(strip_hooks(add))
+    m = re.fullmatch(r'let peer_id = new_connection\.peer_id\(\); match self\.connections\.entry\(peer_id\) \{ Entry::Occupied\(mut entry\) => \{ if Self::simultaneous_dial_tie_breaking\( own_peer_id, &peer_id, entry\.get\(\)\.origin\(\), new_connection\.origin\(\), ?\) \{(.*?)\} else \{(.*?)\} \} Entry::Vacant\(entry\) => \{(.*?)\} \}(.*)', a)
+    if not m:
+        raise ValueError('registry: shape of ActivePeersInner::add')
+    win, lose, vacant, tail = (stmts(m.group(i), f'add arm {i}') for i in (1, 2, 3, 4))
+    # remove
+    rm = flat(strip_hooks(block_after(inner, r'fn\s+remove\s*\(\s*&mut self, peer_id: &PeerId, reason: DisconnectReason\s*\)')))
+    m = re.fullmatch(r'if let Some\(connection\) = self\.connections\.remove\(peer_id\) \{ connection\.close\(\); self\.send_event\(PeerEvent::LostPeer\(\*peer_id, reason\)\); \}', rm)
+    if not m:
+        raise ValueError('registry: shape of ActivePeersInner::remove: ' + rm[:120])
+    rs = flat(strip_hooks(block_after(inner, r'fn\s+remove_with_stable_id\s*\(')))
+    m = re.fullmatch(r'match self\.connections\.entry\(peer_id\) \{ Entry::Occupied\(entry\) => \{ if entry\.get\(\)\.stable_id\(\) == stable_id \{ let \(peer_id, connection\) = entry\.remove_entry\(\); connection\.close\(\); self\.send_event\(PeerEvent::LostPeer\(peer_id, reason\)\); \} \} Entry::Vacant\(_\) => \{\} \}', rs)
+    if not m:
+        raise ValueError('registry: shape of remove_with_stable_id: ' + rs[:160])
+    sub = flat(strip_hooks(block_after(inner, r'fn\s+subscribe\s*\(\s*&self\s*\)')))
+    if sub != 'let peers = self.peers(); let receiver = self.peer_event_sender.subscribe(); (receiver, peers)':
+        raise ValueError('registry: shape of ActivePeersInner::subscribe: ' + sub[:120])
+    outer = block_after(cm, r'impl\s+ActivePeers\s*\{')
+    osub = flat(block_after(outer, r'pub fn subscribe\s*\(\s*&self\s*\)'))
+    if osub != 'self.inner().subscribe()':
+        raise ValueError('registry: ActivePeers::subscribe must take the lock once: ' + osub[:120])
+    for fn, want in [('remove', 'self.inner_mut().remove(peer_id, reason)'), ('remove_with_stable_id', 'self.inner_mut() .remove_with_stable_id(peer_id, stable_id, reason)'), ('add', 'self.inner_mut().add(own_peer_id, new_connection)'), ('get', 'self.inner().get(peer_id)'), ('peers', 'self.inner().peers()')]:
+        b = flat(block_after(outer, r'fn ' + fn + r'\s*\('))
+        if b.replace(' ', '') != want.replace(' ', ''):
+            raise ValueError(f'registry: ActivePeers::{fn} wrapper: {b[:100]}')
+    g = flat(block_after(inner, r'fn\s+get\s*\(\s*&self, peer_id: &PeerId\s*\)'))
+    if g != 'self.connections.get(peer_id).cloned()':
+        raise ValueError('registry: ActivePeersInner::get: ' + g[:100])
+    # the handler's exit: deregister (by stable id, whatever the reason) before tearing down in-flight requests
+    rh = strip_comments(read(repo, 'crates/anemo/src/network/request_handler.rs'))
+    st = flat(strip_hooks(block_after(rh, r'pub\s+async\s+fn\s+start\s*\(\s*self\s*\)')))
+    tailm = re.search(r'\}; (self\.active_peers\.remove_with_stable_id\( self\.connection\.peer_id\(\), self\.connection\.stable_id\(\), crate::types::DisconnectReason::from_quinn_error\(&close_reason\), ?\); inflight_requests\.shutdown\(\)\.await;)\s*$', st)
+    if not tailm:
+        raise ValueError('registry: handler exit sequence: ' + st[-260:])
+    if st.count('active_peers.') != 1:
+        raise ValueError('registry: handler touches the active peers elsewhere')
+    # identity of a connection = first certificate of the chain
+    co = strip_comments(read(repo, 'crates/anemo/src/connection.rs'))
+    tp = flat(block_after(co, r'fn\s+try_peer_id\s*\('))
+    if not re.search(r'\.downcast::<Vec<[^>]*CertificateDer[^>]*>>\(\) \.unwrap\(\)\[0\]', tp) or '.pop()' in tp or '.last()' in tp:
+        raise ValueError('registry: try_peer_id: ' + tp[:200])
+    L = lambda xs: '[' + ', '.join('.' + x for x in xs) + ']'
+    return (f'def addWinEffs : List AddEff := {L(win)}\n'
+            f'def addLoseEffs : List AddEff := {L(lose)}\n'
+            f'def addVacantEffs : List AddEff := {L(vacant)}\n'
+            f'def addTailEffs : List AddEff := {L(tail)}\n'
+            '/-- `remove`: take the entry out, close it, announce LostPeer(reason); `remove_with_stable_id`: the same,\n'
+            'only when the stored connection has that stable id; `subscribe`: snapshot and receiver under one lock;\n'
+            'the handler deregisters by stable id before it tears its in-flight requests down; the identity of a\n'
+            'connection is read from the first certificate of the chain (the one the verifiers authenticate) -/\n'
+            'def registryShapeChecked : Bool := true\n')
+
+
 ITEMS = [('ANEMO', item_anemo), ('Version', item_version), ('StatusCode', item_status),
-         ('headers', item_headers), ('ConfigDefaults', item_config), ('tieBreak', item_tiebreak), ('codegen', item_codegen), ('admit', item_admit), ('life', item_life)]
+         ('headers', item_headers), ('ConfigDefaults', item_config), ('tieBreak', item_tiebreak), ('codegen', item_codegen), ('admit', item_admit), ('life', item_life), ('registry', item_registry)]
 
 HEADER = '''/- GENERATED by /verif/tools/gen.py from /repo's working tree on every run -- do not edit. -/
 import AnemoModel.Basic
@@ -395,6 +487,11 @@ inductive Affinity where
   | high
   | allowed
   | never
+  deriving DecidableEq, Repr, Inhabited
+
+/-- the effects `ActivePeersInner::add` performs, in source order (the generated lists are made of these) -/
+inductive AddEff where
+  | insertNew | closeOld | closeNew | emitLostRequested | emitNew | retNone | retSome
   deriving DecidableEq, Repr, Inhabited
 
 namespace Gen
